@@ -50,7 +50,15 @@ def _sig(inv, r):
     b = r["b0"]
     ln = r["len"]
     lc = "<48" if ln < 48 else "48" if ln == 48 else ">48"
-    return "C09 %s %s len%s tr=%s li=%d vn=%d mode=%d" % (inv, r["tp"], lc, r["tr"], b >> 6, (b >> 3) & 7, b & 7)
+    if r["n"] == 0 and inv in ("ToSender", "ReplyHeader", "MRawReverse"):
+        # only the sentinel's reply can be meant
+        return "C09 %s sentinel-reply %s%s" % (inv, r["tp"], (" hosts=%s>%s" % (r["sc"]["st"], r["sc"]["dt"])) if r["tp"] == "scion" else "")
+    if r["sn"] != 1 and r["n"] == r["exp"] and not inv.startswith("S"):
+        # the case itself was handled as the statement demands; the well-formed
+        # request that followed it on the same listener socket got no reply
+        return "C09 %s sentinel-after %s len%s tr=%s" % (inv, r["tp"], lc, r["tr"])
+    fam = (" hosts=%s>%s" % (r["sc"]["st"], r["sc"]["dt"])) if r["tp"] == "scion" and r["sc"]["st"] + r["sc"]["dt"] != "v4v4" else ""
+    return "C09 %s %s%s len%s tr=%s li=%d vn=%d mode=%d" % (inv, r["tp"], fam, lc, r["tr"], b >> 6, (b >> 3) & 7, b & 7)
 
 
 def _corrupt(recs, kind):
@@ -81,26 +89,35 @@ def run(ctx):
     q = ctx.quick
     ctx.specdir()
     # 1 + 2: design-level model checking and case generation, concurrently
-    jobs = [lambda: ctx.tlc("ListenerMC", "Listener_exh.cfg", workers=6, timeout=600),
+    jobs = [lambda: ctx.tlc("ListenerMC", "Listener_exh.cfg" if q else "Listener_exhall.cfg", workers=6, timeout=900),
             lambda: ctx.tlc("ListenerMC", "Listener_pair.cfg", workers=3, timeout=600),
             lambda: ctx.tlc("ListenerMC", "Listener_gen.cfg" if q else "Listener_gendeep.cfg",
                             workers=1, timeout=600, tag="gen"),
             lambda: ctx.tlc("ListenerMC", "Listener_genpair.cfg" if q else "Listener_genpairdeep.cfg",
                             workers=1, timeout=600, tag="genpair")]
+    # histories of three datagrams on one listener socket (HistoryIndependence), and
+    # the proof that the invariant is not vacuous: the variant that restores the
+    # receive buffer only after a served request must violate it
+    jobs += [lambda: ctx.tlc("ListenerMC", "Listener_hist.cfg", workers=2, timeout=600),
+             lambda: ctx.tlc("ListenerMC", "Listener_f_stalebuf.cfg", workers=2, timeout=600, allow_violation=True,
+                             tag="f_stalebuf")]
     if not q:
         jobs += [lambda: ctx.tlc("ListenerMC", "Listener_deep.cfg", workers=3, timeout=900),
                  lambda: ctx.tlc("ListenerMC", "Listener_pairdeep.cfg", workers=3, timeout=900)]
     res = _par(jobs)
     for r in res:
         ctx.log("TLC %s: %d distinct states, %.1fs" % (r["cfg"], r["distinct"], r["wall_s"]))
+    if res[5]["violated"] != "HistoryIndependence":
+        raise vlib.Inconclusive("self-check: the stale-buffer variant of Listener.tla does not violate HistoryIndependence")
     cases = ctx.emitted(res[2]["out"])
     pairs = ctx.emitted(res[3]["out"])
-    if len(cases) < 20000 or len(pairs) < 300:
+    if len(cases) < 30000 or len(pairs) < 300 or {c["fam"] for c in cases} != {"44", "46", "64", "66"}:
         raise vlib.Inconclusive("case generator produced only %d cases / %d pair cases" % (len(cases), len(pairs)))
     # vacuity self-check: every stage of the pipeline at which the model drops a
     # datagram, and acceptance, must occur among the generated cases on both transports
     stages = {"none", "ntp.DecodePacket", "nts.DecodePacket:errNoUniqueID", "nts.DecodePacket:errNoAuthenticator",
-              "FirstCookie", "provider.Get", "EncryptedServerCookie.Decrypt", "nts.ProcessRequest", "ntp.ValidateRequest"}
+              "nts.DecodePacket:errUnexpectedExtHdrLength", "nts.DecodePacket:errShortUniqueID",
+              "EncryptedServerCookie.Decode", "FirstCookie", "provider.Get", "EncryptedServerCookie.Decrypt", "nts.ProcessRequest", "ntp.ValidateRequest"}
     for tp in ("ip", "scion"):
         seen = {c["drop"] for c in cases if c["tp"] == tp}
         if seen != stages:
@@ -182,14 +199,18 @@ def run(ctx):
     valid = [r for r in recs if r["k"] == "case" and r["n"] > 0]
     ctx.cov.update(
         evaluations=len(recs),
-        distinct_nontrivial=len({(r["k"], r["tp"], r["b0"], r["len"], r["tr"], r["pk"], r["src"]["h"]) for r in obs}),
+        distinct_nontrivial=len({(r["k"], r["tp"], r["b0"], r["len"], r["tr"], r["pk"], r.get("fam", ""), r["src"]["h"]) for r in obs}),
         rule="every first payload byte 0..255 x {0,1,47,48,49,75,76,1024,2048 and each trailer class's natural length} "
-             "x 14 trailer classes (none, <28 bytes, unknown fields, uid only, no uid, no cookie, valid NTS, valid NTS with "
-             "placeholders, bad tag, wrong key, altered header, unknown cookie key, altered cookie, data after authenticator) "
-             "x {IP, SCION empty path%s} (TLC-enumerated from Listener.tla, exhaustive in the abstraction; other bytes random "
-             "per seed); plus forged-source datagrams between two servers (%s first bytes x 3 shapes x {IP, SCION} x 2 directions); "
-             "distinct = distinct (kind, transport, first byte, length, trailer class, path kind, source host)"
-             % (("; 1/2/3-segment paths with 27 key first bytes" if q else ", 1/2/3-segment SCION paths"), "27 key" if q else "all 256"),
+             "x 18 trailer classes (none, <28 bytes, unknown fields, uid only, no uid, no cookie, valid NTS, valid NTS with "
+             "placeholders, bad tag, wrong key, altered header, unknown cookie key, altered cookie, data after authenticator, "
+             "field length < 4, short uid, undecodable cookie, nonce length != 16) x {IP, SCION} (TLC-enumerated from "
+             "Listener.tla; other bytes random per seed); SCION: path kinds {empty, 1, 2, 2 mid-path, 3 segments} x host "
+             "address types {v4>v4, v6>v6, v4>v6, v6>v4} (%s); each case is followed on the same socket by a well-formed "
+             "48- or 252-byte request (two-datagram history per record); plus forged-source datagrams between two servers "
+             "(%s first bytes x 3 shapes x {IP, SCION} x 2 directions); "
+             "distinct = distinct (kind, transport, first byte, length, trailer class, path kind, address types, source host)"
+             % ("non-empty paths and non-v4 hosts with 27 key first bytes" if q else "non-v4 hosts with 27 key first bytes",
+                "27 key" if q else "all 256"),
         traces_validated_against_impl=nval, exhaustive=True,
         replies_observed=len(valid),
         records_per_predicted_stage={st: sum(1 for r in obs if r["drop"] == st) for st in sorted(stages)},
@@ -199,8 +220,9 @@ def run(ctx):
         "a datagram counts as the listener's answer to a case iff it reaches the sending socket before the reply to the "
         "sentinel request sent from the same socket right after the case (same 4-tuple => same SO_REUSEPORT listener, FIFO on loopback)",
         "the abstraction is complete for the decisions of the pinned pipeline: bytes that no stage looks at are random per seed",
-        "trailer classes avoid the byte patterns that crash nts.DecodePacket / cookie decoding (C08's findings): "
-        "extension fields shorter than 4 bytes, nonce length != 16, short cookies",
+        "since the decoder fixes in /repo the trailer classes include extension fields with Length < 4, short unique "
+        "identifiers, undecodable cookies and nonce lengths != 16 (clean rejections; on older trees they kill the listener "
+        "and the check reports INCONCLUSIVE)",
         "SPAO-authenticated SCION requests, SCMP and the forwarding branch of the SCION loop are out of scope (C13)",
         "datagrams with bytes after the NTS authenticator are recorded but not judged (the statement is silent on them)",
         "pair experiment: 'total datagrams ever sent' is read from the servers' own received-packet counters after the "
@@ -214,7 +236,7 @@ def _brief(r):
         return r
     if r["k"] == "pair":
         return {k: r[k] for k in ("k", "tp", "b0", "len", "tr", "src", "dst", "arecv", "brecv", "asrv", "bsrv", "exp")}
-    d = {k: r[k] for k in ("k", "id", "tp", "b0", "len", "tr", "pk", "n", "sn", "tries", "exp", "drop")}
+    d = {k: r[k] for k in ("k", "id", "tp", "b0", "len", "tr", "pk", "n", "slen", "sn", "tries", "exp", "drop")}
     d["out"] = [{k: o[k] for k in ("b0", "st", "len", "src", "echo", "raw_ok")} for o in r["out"]]
     if r["tp"] == "scion":
         d["sc"] = r["sc"]
